@@ -122,9 +122,13 @@ def run_history(case):
                 kw = {}
                 if p['rs'] != 'unchecked':
                     kw['returnSignature'] = p['rs_value']
+                sig_arg = p['sig'] or None
+                if not p['sig']:
+                    # a call without arguments has several spellings
+                    sig_arg, body = [(None, None), ('', None), ('', []), (None, [])][opi % 4]
                 try:
                     d = rig.conn.callRemote('/o', 'M', interface='a.b', destination='c.d',
-                                            signature=p['sig'] or None, body=body, expectReply=p['expect'],
+                                            signature=sig_arg, body=body, expectReply=p['expect'],
                                             timeout=p['timeout'], **kw)
                 except Exception as e:
                     out.append(Disc(exc_key(e, 'callRemote'), exc_detail(e)))
